@@ -15,6 +15,8 @@ let parse_op (s : string) : BufStore.op =
   match s.[0] with
   | 'f' -> if Stdlib.String.length s = 1 then BufStore.OFill None
            else BufStore.OFill (Some (n_of_int (int_of_string ("0x" ^ rest_of s))))
+  | 'z' -> if Stdlib.String.length s = 1 then BufStore.OFillZ None
+           else BufStore.OFillZ (Some (n_of_int (int_of_string ("0x" ^ rest_of s))))
   | 'a' -> BufStore.OAdv (nat (rest_of s))
   | 't' -> BufStore.OAdvTo (nat (rest_of s))
   | 'g' -> let (i, j) = two (rest_of s) in BufStore.OGet (i, j)
